@@ -112,11 +112,11 @@ pub fn cont_sets() {
     i = 0; while i < len { let before = ex.log.n; match u8_spec(arena::node(i), p.idx(i as usize), &mut ex) { Some(v) => { want.insert(v); } None => {} } if ex.log.n != before { ex.log.push(handover(p.idx(i as usize))); } i += 1; }
     let r = <BTreeSet<u8> as Deserr<Rec>>::deserialize_from_value::<KV>(to_value(n), l);
     match r { Ok(s) => { oblige!(ex.log.n == 0 && s == want, "C06:set_equals_the_set_of_payload_elements"); oblige!(rec::calls() == 0, "C01:ok_only_if_nothing_reported"); }
-              Err(e) => { oblige!(ex.log.n > 0 && e.same(&rec::global()) && agree_until_stop(&e, &ex.log) && (!no_stop(&e) || e.n == ex.log.n) && stop_then_handover(&e), "C01,C02,C03,C04:set_reports") } }
+              Err(e) => { oblige!(ex.log.n > 0 && e.same(&rec::global()) && agree_until_stop(&e, &ex.log) && (!no_stop(&e) || e.n == ex.log.n) && stop_then_handover(&e) && stop_then_handover(&rec::global()), "C01,C02,C03,C04:set_reports") } }
     rec::reset();
     let r = <HashSet<u8> as Deserr<Rec>>::deserialize_from_value::<KV>(to_value(n), l);
     match r { Ok(s) => { oblige!(ex.log.n == 0 && s.len() == want.len() && want.iter().all(|x| s.contains(x)), "C06:set_equals_the_set_of_payload_elements"); }
-              Err(e) => { oblige!(ex.log.n > 0 && e.same(&rec::global()) && agree_until_stop(&e, &ex.log) && (!no_stop(&e) || e.n == ex.log.n) && stop_then_handover(&e), "C01,C02,C03,C04:set_reports") } }
+              Err(e) => { oblige!(ex.log.n > 0 && e.same(&rec::global()) && agree_until_stop(&e, &ex.log) && (!no_stop(&e) || e.n == ex.log.n) && stop_then_handover(&e) && stop_then_handover(&rec::global()), "C01,C02,C03,C04:set_reports") } }
 }
 /// map targets keyed by the parsed form of the string key: u8 keys from a dictionary with unparsable words
 pub fn cont_maps() {
@@ -136,11 +136,11 @@ pub fn cont_maps() {
     }
     let r = <BTreeMap<u8, Leaf> as Deserr<Rec>>::deserialize_from_value::<KV>(to_value(n), l);
     match r { Ok(m) => { oblige!(ex.log.n == 0 && m.len() == want.len() && m.iter().all(|(k, v)| want.get(k) == Some(&lv(v))), "C06:map_keys_each_entry_by_the_parsed_key"); oblige!(rec::calls() == 0, "C01:ok_only_if_nothing_reported"); }
-              Err(e) => { oblige!(ex.log.n > 0, "C06:unparsable_key_or_faulty_value_fails_the_call"); oblige!(e.same(&rec::global()) && agree_until_stop(&e, &ex.log) && (!no_stop(&e) || e.n == ex.log.n) && stop_then_handover(&e), "C01,C02,C03,C04:map_reports") } }
+              Err(e) => { oblige!(ex.log.n > 0, "C06:unparsable_key_or_faulty_value_fails_the_call"); oblige!(e.same(&rec::global()) && agree_until_stop(&e, &ex.log) && (!no_stop(&e) || e.n == ex.log.n) && stop_then_handover(&e) && stop_then_handover(&rec::global()), "C01,C02,C03,C04:map_reports") } }
     rec::reset();
     let r = <HashMap<u8, Leaf> as Deserr<Rec>>::deserialize_from_value::<KV>(to_value(n), l);
     match r { Ok(m) => { oblige!(ex.log.n == 0 && m.len() == want.len() && m.iter().all(|(k, v)| want.get(k) == Some(&lv(v))), "C06:map_keys_each_entry_by_the_parsed_key"); }
-              Err(e) => { oblige!(ex.log.n > 0, "C06:unparsable_key_or_faulty_value_fails_the_call"); oblige!(e.same(&rec::global()) && agree_until_stop(&e, &ex.log) && (!no_stop(&e) || e.n == ex.log.n) && stop_then_handover(&e), "C01,C02,C03,C04:map_reports") } }
+              Err(e) => { oblige!(ex.log.n > 0, "C06:unparsable_key_or_faulty_value_fails_the_call"); oblige!(e.same(&rec::global()) && agree_until_stop(&e, &ex.log) && (!no_stop(&e) || e.n == ex.log.n) && stop_then_handover(&e) && stop_then_handover(&rec::global()), "C01,C02,C03,C04:map_reports") } }
 }
 
 
@@ -251,7 +251,7 @@ pub fn cont_jvalue() {
             oblige!(e.same(&rec::global()), "C01:returned_error_is_built_from_every_call");
             oblige!(agree_until_stop(&e, &ex.log), "C02,C03,C04:events_up_to_first_stop_equal_keep_going_run");
             oblige!(!no_stop(&e) || e.n == ex.log.n, "C01,C02:keep_going_run_is_complete");
-            oblige!(stop_then_handover(&e), "C03:stop_ends_work");
+            oblige!(stop_then_handover(&e) && stop_then_handover(&rec::global()), "C03:stop_ends_work");
             oblige!(all_under(&e, &p), "C04:every_event_under_the_given_location");
         }
     }
